@@ -65,6 +65,16 @@ def perturbations(g, rng, ir, choose=None):
     P.append(("ir.aux-key-empty-string-added", lambda: (False if "" in ir.aux_data else ir.aux_data.__setitem__("", g.AuxData(0, "uint8_t")))))
     P.append(("ir.version->0", setattr_(ir, "version", 0)))
     P.append(("ir.module-added-all-defaults", lambda: ir.modules.append(g.Module(name=""))))
+    # the block a module's entry point NAMES, when it lives in ANOTHER module: the module holding the reference differs from its copy
+    # (entry points are compared deeply), although nothing inside that module changed
+    for m_ in mods:
+        ep = m_.entry_point
+        if ep is not None and ep.module is not m_:
+            P.append(("entry-block-in-another-module.size", setattr_(ep, "size", ep.size + 1)))
+            P.append(("entry-block-in-another-module.offset", setattr_(ep, "offset", ep.offset + 1)))
+            P.append(("entry-block-in-another-module.decode_mode",
+                      setattr_(ep, "decode_mode", [d for d in g.CodeBlock.DecodeMode if d != ep.decode_mode][0])))
+            break
     m = pick(mods)
     if m is not None:
         P.append(("module.aux-key-empty-string-added", lambda: (False if "" in m.aux_data else m.aux_data.__setitem__("", g.AuxData(0, "uint8_t")))))
@@ -476,7 +486,7 @@ def full_ir(g):
     b3.symbolic_expressions[2] = g.SymAddrAddr(4, -1, y4, y1, {A.PCREL})
     b4.symbolic_expressions[1] = g.SymAddrConst(9, y6)
     m1.entry_point = c1
-    m2.entry_point = c4
+    m2.entry_point = c2          # (a code block of the EARLIER module m1: an entry point across modules)
     L = g.Edge.Label
     for e in (g.Edge(c1, c2, L(T.Branch, True, False)), g.Edge(c1, c2, L(T.Fallthrough)), g.Edge(c1, c2, None), g.Edge(c2, p1, L(T.Call)),
               g.Edge(c3, c3, None), g.Edge(p2, c4, L(T.Return, False, False)), g.Edge(c4, c1, L(T.Syscall))):
